@@ -357,7 +357,7 @@ MUTATORS = {"append", "extend", "insert", "update", "pop", "remove", "clear", "s
 
 def _is_literal(e: ast.AST) -> bool:
     if isinstance(e, ast.Constant):
-        return isinstance(e.value, (int, float)) and not isinstance(e.value, bool)
+        return isinstance(e.value, (int, float, str)) and not isinstance(e.value, bool)
     if isinstance(e, (ast.Tuple, ast.List)):
         return all(_is_literal(x) for x in e.elts)
     if isinstance(e, ast.UnaryOp) and isinstance(e.op, ast.USub):
